@@ -363,26 +363,8 @@ impl Neg for Duration {
 
     #[must_use]
     fn neg(self) -> Self::Output {
-        if self == Self::MIN {
-            Self::MAX
-        } else if self == Self::MAX {
-            Self::MIN
-        } else {
-            match NANOSECONDS_PER_CENTURY.checked_sub(self.nanoseconds) {
-                Some(nanoseconds) => {
-                    // yay
-                    Self::from_parts(-self.centuries - 1, nanoseconds)
-                }
-                None => {
-                    if self > Duration::ZERO {
-                        let dur_to_max = Self::MAX - self;
-                        Self::MIN + dur_to_max
-                    } else {
-                        let dur_to_min = Self::MIN + self;
-                        Self::MAX - dur_to_min
-                    }
-                }
-            }
-        }
+        // The opposite of the exact count always fits in an i128, and the conversion saturates:
+        // MIN and MAX are the opposite of each other.
+        Self::from_total_nanoseconds(-self.exact_total_nanoseconds())
     }
 }
